@@ -14,7 +14,10 @@ checkout `H` (own branch, possibly bound to the master).  Model of
 * `breezy/branch.py`: `GenericInterBranch._update_revisions` (nothing to do for
   an empty source; descendant / diverged check unless overwriting);
 * `breezy/bzr/workingtree.py`: `InventoryWorkingTree.update` / `_update_tree` /
-  `pull` on the level of tree parents (merges are assumed conflict-free).
+  `pull` on the level of tree parents (merges are assumed conflict-free);
+* `breezy/bzr/workingtree_4.py`: `WorkingTree4.set_parent_trees` (the basis is
+  always kept; a pending merge is dropped when it was listed already or is not
+  a head of the parent list).
 
 Every tip write (`set_last_revision_info` that changes the tip) is pushed onto
 `log` (newest first) with the branch and the operation kind that caused it.
@@ -175,10 +178,28 @@ def commitMaster (s : St) (w : Who) (r : Rev) (localOnly : Bool) : St × Out :=
                          log := ⟨.master, r, .commit⟩ :: s.log }
       (if w == .M then { s' with tM := ⟨r, []⟩ } else { s' with tL := ⟨r, []⟩ }, .ok)
 
+/-- `graph.heads(keys)` membership: `k` is not a proper ancestor of another key -/
+def isHead (g : Graph) (keys : List Rev) (k : Rev) : Bool :=
+  !(keys.any fun k' => k' != k && isAncestor g k k')
+
+/-- the loop of `WorkingTree4.set_parent_trees` over the parents after the
+first: one is kept when it is a head of the whole parent list and has not been
+kept already (`acc` = the parents kept so far, the basis included) -/
+def acceptParents (g : Graph) (all : List Rev) : List Rev → List Rev → List Rev
+  | _, [] => []
+  | acc, m :: rest =>
+    if acc.contains m || !isHead g all m then acceptParents g all acc rest
+    else m :: acceptParents g all (m :: acc) rest
+
+/-- `set_parent_trees([basis] + merges)`: the basis is always kept, the pending
+merges are filtered (no duplicates, nothing that is an ancestor of another parent) -/
+def mkTree (g : Graph) (basis : Rev) (merges : List Rev) : Tree :=
+  ⟨basis, acceptParents g (basis :: merges) [basis] merges⟩
+
 /-- `_update_tree(old_tip)` with target revision `target` (conflict-free) -/
-def updateTree (t : Tree) (target : Rev) (oldTip : Option Rev) : Tree :=
+def updateTree (g : Graph) (t : Tree) (target : Rev) (oldTip : Option Rev) : Tree :=
   if t.basis != target then
-    ⟨target, t.merges ++ (match oldTip with | some o => [o] | none => [])⟩
+    mkTree g target (t.merges ++ (match oldTip with | some o => [o] | none => []))
   else t
 
 /-- `WorkingTree.update()` in the heavyweight checkout -/
@@ -188,9 +209,9 @@ def updateH (s : St) : St × Out :=
     let newLoc := if s.master == null then s.loc else s.master
     let oldTip : Option Rev := if isAncestor s.graph s.loc newLoc then none else some s.loc
     let log := if newLoc != s.loc then ⟨.loc, newLoc, .update⟩ :: s.log else s.log
-    ({ s with loc := newLoc, log := log, tH := updateTree s.tH newLoc oldTip }, .ok)
+    ({ s with loc := newLoc, log := log, tH := updateTree s.graph s.tH newLoc oldTip }, .ok)
   else
-    ({ s with tH := updateTree s.tH s.loc none }, .ok)
+    ({ s with tH := updateTree s.graph s.tH s.loc none }, .ok)
 
 /-- `wt.pull(master)` in the heavyweight checkout -/
 def pullH (s : St) : St × Out :=
@@ -199,7 +220,7 @@ def pullH (s : St) : St × Out :=
   else if !isAncestor s.graph s.loc s.master then (s, .diverged)
   else
     ({ s with loc := s.master, log := ⟨.loc, s.master, .pull⟩ :: s.log,
-              tH := ⟨s.master, s.tH.merges⟩ }, .ok)
+              tH := mkTree s.graph s.master s.tH.merges }, .ok)
 
 /-- `GenericInterBranch._update_revisions(stop_revision, overwrite)`: the new
 tip of the target, `none` = `DivergedBranches` -/
@@ -213,7 +234,7 @@ def updateRevisions (g : Graph) (target source : Rev) (stop : Option Rev) (ow : 
   else some st
 
 /-- tree part of `WorkingTree.pull`: rebased on the new tip when the tip moved -/
-def pulledTree (t : Tree) (old new : Rev) : Tree := if new != old then ⟨new, t.merges⟩ else t
+def pulledTree (g : Graph) (t : Tree) (old new : Rev) : Tree := if new != old then mkTree g new t.merges else t
 
 def logIf (c : Bool) (e : Entry) (l : List Entry) : List Entry := if c then e :: l else l
 
@@ -234,7 +255,7 @@ def pullOtherH (s : St) (stop : Option Rev) (ow localOnly : Bool) : St × Out :=
       | none => (s1, .diverged)
       | some l' =>
         ({ s1 with loc := l', log := logIf (l' != s.loc) ⟨.loc, l', .pull⟩ s1.log,
-                   tH := pulledTree s.tH s.loc l' }, .ok)
+                   tH := pulledTree s.graph s.tH s.loc l' }, .ok)
 
 /-- the same in the master's tree or the lightweight checkout (the branch is the
 master, which is not bound) -/
@@ -246,8 +267,8 @@ def pullOtherMaster (s : St) (w : Who) (stop : Option Rev) (ow localOnly : Bool)
     | none => (s, .diverged)
     | some m' =>
       let s1 := { s with master := m', log := logIf (m' != s.master) ⟨.master, m', .pull⟩ s.log }
-      (if w == .M then { s1 with tM := pulledTree s.tM s.master m' }
-       else { s1 with tL := pulledTree s.tL s.master m' }, .ok)
+      (if w == .M then { s1 with tM := pulledTree s.graph s.tM s.master m' }
+       else { s1 with tL := pulledTree s.graph s.tL s.master m' }, .ok)
 
 /-- `source.push(P)` into an unbound third branch -/
 def pushTo (s : St) (src : Rev) : St × Out :=
@@ -266,8 +287,8 @@ def swapH (s : St) : St :=
 /-- `WorkingTree.update()` in the master's tree / the lightweight checkout -/
 def updateMasterTree (s : St) (w : Who) : St × Out :=
   if s.masterBound then (s, .unmodelled)     -- would pull the master from ITS master first
-  else if w == .M then ({ s with tM := updateTree s.tM s.master none }, .ok)
-  else ({ s with tL := updateTree s.tL s.master none }, .ok)
+  else if w == .M then ({ s with tM := updateTree s.graph s.tM s.master none }, .ok)
+  else ({ s with tL := updateTree s.graph s.tL s.master none }, .ok)
 
 def step (s : St) : Op → St × Out
   | .commit .H r l => commitH s r l
@@ -280,7 +301,7 @@ def step (s : St) : Op → St × Out
   | .commitO r => ({ s with graph := addRev s.graph r s.tO.parents, other := r, tO := ⟨r, []⟩ }, .ok)
   | .syncO =>
     let o' := if s.master == null then s.other else s.master
-    ({ s with other := o', tO := pulledTree s.tO s.other o' }, .ok)
+    ({ s with other := o', tO := pulledTree s.graph s.tO s.other o' }, .ok)
   | .pullOther .H stop ow l => pullOtherH s stop ow l
   | .pullOther w stop ow l => pullOtherMaster s w stop ow l
   | .push .H => pushTo s s.loc
